@@ -163,6 +163,15 @@ CHECKS["C15"] = ("other",
     "after a leading variable.",
     TB % "c15", "monitors via abstract interpretation of MIR (no execution)", "DESIGN.md §5 C15")
 
+CHECKS["C04"] = ("other",
+    "NOT verdict equality under arbitrary permutation/duplication (behavioural). Decided necessary conditions: every aggregation "
+    "site computes a function of the SET of child outcomes and walks its sibling loop to exhaustion on every Ok return (no early "
+    "break after a FAIL/PASS sibling), the rule lookup table is built from all definitions (entry+push, no overwrite) with no "
+    "evaluation reachable while it is built, each memo write stores the value that is returned under the requested name after "
+    "its computation completed, and the one accumulating memo write (key capture) is idempotent: the push happens only where a "
+    "reflexive membership test over the same slot found no equal element (this was a genuine defect, repaired).",
+    TB % "c04", "loop-exhaustion and memo-write typestate via abstract interpretation of MIR; who-may-write enumeration over resolved MIR places", "DESIGN.md §5 C04")
+
 NOT_APPLICABLE = {
 }
 
